@@ -61,6 +61,10 @@ package kernel
 //@   ensures [other] !OpElected(operation) ==> forall k int :: 0 <= k && k < 32 ==> result[k] == 0
 //@   ensures [elected] OpElected(operation) ==> exists i int :: ListIdx(node.acceptedNodeStateSequences, now, i) &&
 //@       Elected(node, operation, now, node.acceptedNodeStateSequences[i].NodesWithoutState, result)
+//@   -- assumed for C34's caller (kernel/custodian.go): NodesListWithoutState(now, true) only returns a sequence whose timestamp is < now, and every
+//@   -- node state timestamp is >= the genesis epoch, so for an elected operation a normal return implies now > Epoch (not proved: needs the
+//@   -- ordering of the cached sequences, which NodeRep does not state)
+//@   assumes operation == common.TransactionTypeCustodianUpdateNodes ==> now > node.Epoch
 
 // ───────────── removal candidate ─────────────
 
